@@ -22,6 +22,8 @@ CONTENTS = [
     {"cols": ["a", "b", "c"], "cell": {"a": [0, 2, 4], "b": [2, -1, 4], "c": [2, -1, 0]}},
     {"cols": ["a", "b", "c"], "cell": {"a": [2, 0], "b": [-1, 6], "c": [-1, 4]}},
     {"cols": ["a", "b", "c"], "cell": {"a": [6], "b": [8], "c": [6]}},
+    # first row: middle column missing, later column present (formats that omit nulls must not reorder columns)
+    {"cols": ["a", "b", "c"], "cell": {"a": [0, 2], "b": [-1, 2], "c": [2, -1]}},
 ]
 MAGIC = {b"\x1f\x8b": "gz", b"BZh": "bz2", b"\xfd7zXZ\x00": "xz"}
 
@@ -203,7 +205,7 @@ def run_for(ctx, prop):
     rng = ctx.rng
     ALLF = ["pickle", "npz", "parquet", "csv", "json"]
     # every configuration: one write followed by one read (whole / restricted / alias / cast)
-    hists = gen(ctx, 2, 3, ALLF, [",", ";", "\t"], ["utf-8", "latin-1"])
+    hists = gen(ctx, 2, 4, ALLF, [",", ";", "\t"], ["utf-8", "latin-1"])
     # interleavings: two writes (overwrite, or another suffix of the same stem) then reads
     hists3 = gen(ctx, 3, 2, ["pickle", "csv", "json"], [","], ["utf-8"])
     hists3 = [h for h in hists3 if len(h) == 3]
